@@ -24,7 +24,7 @@ VARIABLES dkv,    \* what the ideal implementation has made durable
 
 mvars == <<absvars, dkv, steps>>
 
-Cfg == [syncw |-> SyncW, strict |-> TRUE, bg |-> FALSE, dur |-> TRUE]
+Cfg == [syncw |-> SyncW, strict |-> TRUE, bg |-> FALSE, dur |-> TRUE, ep |-> TRUE]
 
 MInit0 == InitAbs(Cfg) /\ dkv = EmptyMap /\ steps = 0
 
